@@ -194,6 +194,12 @@ func c03Window(c *Ctx, m *searchModel, rule string) {
 							if v == target {
 								return true
 							}
+							// inside a helper the child search was split into: its parameter is what the search function hands it
+							if prm, isPrm := v.(*ssa.Parameter); isPrm && prm.Parent() != fn && depth == 0 {
+								if w := cs.subst(v); w != v {
+									return reachesT(w, target, seen, depth)
+								}
+							}
 							var ds []ssa.Value
 							resolveDefs(v, map[ssa.Value]bool{}, &ds)
 							for _, d := range ds {
